@@ -44,6 +44,10 @@ def twin_pass_changes_tree(l1: int, l2: int, c1: int, c2: int):
 
 def build(tier: str, props=PROPS, pid="C06") -> CheckSpec:
     advtree, treecleaner, uparser = T.mods()
+    import os
+
+    if os.environ.get("VERIF_TREE_BOTH"):  # bug-hunting runs (tools/deep_tree.sh): one exploration judged by the C05 and the C06 oracles
+        props = ("C05", "C06")
     cubes = []
     q = tier == "quick"
     tmo = 240 if q else 1800
